@@ -1,8 +1,13 @@
 package checks
 
 import (
+	"encoding/json"
 	"fmt"
 	"strings"
+
+	"github.com/meshplus/bitxhub-model/constant"
+	"github.com/meshplus/bitxhub-model/pb"
+	"github.com/meshplus/bitxhub/internal/executor/contracts"
 
 	"github.com/meshplus/bitxhub/verifharness/fix"
 	"github.com/meshplus/bitxhub/verifharness/mc"
@@ -21,6 +26,7 @@ func C06(c *mc.Ctx) {
 		alphabet = append(alphabet, "rc:p1:n:r", "req:p1:n:0", "req:p3:n:2", "req:p1:n:huge", "req:p1:n:-1", "req:p1:n:2+req:p3:n:2", "req:p1:n:1+rc:p1:n:s", "rc:p3:n:s", "rc:p2:n:f", "rc:p1:n:s+rc:p3:n:s")
 		depth = 7
 	}
+	c06TwoSourceGroups(c)
 	c06Groups(c) // the small exploration first: the large one may use up the run's time budget
 	runIC(c, "C06", c06Oracle, fix.Options{}, "icmc", alphabet, depth)
 	fix.Cleanup()
@@ -34,6 +40,16 @@ func C06(c *mc.Ctx) {
 func init() {
 	Registry["C06"] = C06
 	Replayers["c06.icmc"] = icReplayer("C06", c06Oracle)
+	Replayers["c06.twogroups"] = func(c *mc.Ctx, r map[string]interface{}) {
+		t := newC06TwoGroups(2)
+		path := strList(r["ops"])
+		for i, op := range path {
+			t.apply(op)
+			t.a.checkTimeouts(c, path[:i+1], "G(two-sources)")
+			t.b.checkTimeouts(c, path[:i+1], "G2(two-sources)")
+		}
+		t.a.w.R.Close()
+	}
 	Replayers["c06.groups"] = func(c *mc.Ctx, r map[string]interface{}) {
 		group, _ := r["group"].(string)
 		T, _ := r["timeout"].(float64)
@@ -78,6 +94,9 @@ func (in *c06GroupInst) checkTimeouts(c *mc.Ctx, path []string, group string) {
 		return
 	}
 	rep := map[string]interface{}{"engine": "c06.groups", "ops": path, "group": group, "timeout": in.T}
+	if strings.Contains(group, "two-sources") {
+		rep["engine"] = "c06.twogroups"
+	}
 	bad := func(sig, format string, a ...interface{}) {
 		c.Report("C06|group|"+sig, fmt.Sprintf(format, a...)+fmt.Sprintf(" [group %s T=%d, block %d = %s] after %s", group, in.T, st.height, st.desc, joinOps(path)), rep)
 	}
@@ -176,4 +195,87 @@ func c06Groups(c *mc.Ctx) {
 	if c.Get("group_timeouts_expected") == 0 && !c.Expired("C06 groups") {
 		c.HarnessError("vacuous: no group timeout expected by the model")
 	}
+}
+
+// ---- two groups from two source services with identical destination -> index maps ----
+//
+// Indices are counted per (source, destination) pair, so the first group of each of two
+// sources carries the same map {B:s2:1, W:sw:1}. The groups are independent transactions:
+// each has its own expiry H+T and completes on its own receipts.
+
+type c06TwoGroups struct {
+	a, b *c06GroupInst
+}
+
+func newC06TwoGroups(T int64) *c06TwoGroups {
+	a := &c06GroupInst{c05Inst: newC05Inst("G", T)}
+	w := a.w
+	// a second source service on chain A
+	res := w.Must(w.Block(w.RegisterServiceTx(fix.KA, fix.ChainA, c16Svc4, "")))
+	w.Approve(fix.ProposalID(res.Receipts[0]))
+	g2 := *c05Groups()["G"]
+	g2.name, g2.from = "G2", fix.FullID(fix.ChainA, c16Svc4)
+	b := &c06GroupInst{c05Inst: &c05Inst{w: w, g: &g2, T: T, m: &c05Model{st: map[string]*c05ChildState{}}}}
+	return &c06TwoGroups{a: a, b: b}
+}
+
+// apply: "<1|2>:<block spec of that group>" or "empty"
+func (t *c06TwoGroups) apply(op string) bool {
+	actor, other, spec := t.a, t.b, op
+	switch {
+	case strings.HasPrefix(op, "1:"):
+		spec = op[2:]
+	case strings.HasPrefix(op, "2:"):
+		actor, other, spec = t.b, t.a, op[2:]
+	}
+	if !actor.applyBlock(spec) {
+		return false
+	}
+	other.inject = actor.last.res
+	ok := other.applyBlock("empty")
+	other.inject = nil
+	return ok
+}
+
+func c06TwoSourceGroups(c *mc.Ctx) {
+	ops := []string{"1:b:c1+b:c2", "1:r:c1:s+r:c2:s", "2:b:c1+b:c2", "2:r:c1:s+r:c2:s", "empty", "1:b:c1", "2:b:c2"}
+	depth := 6
+	if c.Quick() {
+		depth = 5
+		ops = ops[:5]
+	}
+	b := &mc.BFS{C: c, Name: "groups-two-sources-T2", MaxDepth: depth,
+		Init:    func() mc.Instance { return newC06TwoGroups(2) },
+		Enabled: func(x mc.Instance, d int) []string { return ops },
+		Apply: func(x mc.Instance, op string, path []string) (bool, bool) {
+			return x.(*c06TwoGroups).apply(op), false
+		},
+		Key: func(x mc.Instance) string {
+			t := x.(*c06TwoGroups)
+			return t.a.w.R.State.Digest() + t.a.w.R.Chain.Digest() + fmt.Sprint(t.a.m.doomed, t.a.m.doomedAt, t.b.m.doomed, t.b.m.doomedAt)
+		},
+		Check: func(x mc.Instance, path []string) {
+			t := x.(*c06TwoGroups)
+			t.a.checkTimeouts(c, path, "G(two-sources)")
+			t.b.checkTimeouts(c, path, "G2(two-sources)")
+			// a group completes on its own receipts only: all children succeeded <=> global SUCCESS
+			for _, gi := range []*c06GroupInst{t.a, t.b} {
+				if !gi.m.created {
+					continue
+				}
+				ok, data := viewState(gi.w.R, constant.TransactionMgrContractAddr, contracts.GlobalTxInfoKey(gi.g.globalID()))
+				info := contracts.TransactionInfo{}
+				if ok {
+					_ = json.Unmarshal(data, &info)
+				}
+				succ := ok && info.GlobalState == pb.TransactionStatus_SUCCESS
+				if succ != (gi.allSucc() && !gi.m.doomed) {
+					c.Report("C06|group|two-sources|global-status", fmt.Sprintf("group %s (source %s): global SUCCESS=%v but the model says all children succeeded=%v, failed=%v after %s", gi.g.name, gi.g.from, succ, gi.allSucc(), gi.m.doomed, joinOps(path)),
+						map[string]interface{}{"engine": "c06.twogroups", "ops": path})
+				}
+			}
+		},
+		Close: func(x mc.Instance) { x.(*c06TwoGroups).a.w.R.Close() },
+	}
+	b.Run()
 }
